@@ -268,7 +268,7 @@ def rand_slice(r, pw, w, allow_reverse=True):
 DEVS = [("Mos", 4), ("R", 2), ("C", 2), ("Bjt", 3), ("D", 2), ("Res3", 3)]
 
 
-def gen_design(r, size=2, refs=True, ncs=True, arrays=True, nested=True, devs=None):
+def gen_design(r, size=2, refs=True, ncs=True, arrays=True, nested=True, devs=None, reconnect=False):
     """A valid hierarchical design of the core fragment. `size` scales modules/instances/widths."""
     devs = devs or DEVS
     maxw = r.choice([1, 2, 3, 4]) if size <= 2 else r.choice([2, 4, 6, 8])
@@ -333,6 +333,22 @@ def gen_design(r, size=2, refs=True, ncs=True, arrays=True, nested=True, devs=No
                 if c[1] is None and key not in referenced:
                     c[1] = rand_expr(r, pool, w, 1 if nested else 0)
             x["conns"] = [c for c in x["conns"] if c[1] is not None]
+        # connection histories: some ports are first tied to something else and re-connected afterwards ("pre" is applied by the
+        # builder before "conns"; the written circuit is the final mapping, so the specification ignores it)
+        if reconnect:
+            for x in md["insts"]:
+                final = {c[0] for c in x["conns"]}
+                for port, w in target_ports(design, x["of"]):
+                    if port in final and r.random() < 0.12:
+                        safe = [(y["name"], q) for y in single if y is not x for q, qw in target_ports(design, y["of"])
+                                if qw == w and any(c[0] == q and c[1][0] in ("sig", "sl", "cat") for c in y["conns"])]
+                        if safe and r.random() < 0.4:
+                            y, q = r.choice(safe)
+                            decoy = ["ref", y, q]
+                        else:
+                            decoy = rand_expr(r, pool, w * x["n"] if x["n"] > 0 and r.random() < 0.3 else w, 1)
+                        if decoy is not None:
+                            x.setdefault("pre", []).append([port, decoy])
     return design
 
 
@@ -340,4 +356,4 @@ def features(design):
     s = json.dumps(design)
     return dict(refs='"ref"' in s, ncs='"nc"' in s, arrays=any(x["n"] > 0 for m in design["mods"] for x in m["insts"]),
                 slices='"sl"' in s, concats='"cat"' in s, hier=len(design["mods"]) > 1, exts='"ext"' in s,
-                negstep=any(k in s for k in (', -1]', ', -2]')))
+                negstep=any(k in s for k in (', -1]', ', -2]')), reconnected='"pre"' in s)
